@@ -20,7 +20,7 @@ class C09(Prop):
     rule = (
         "cases = a collecting step (num_workers 1..4, expected list of 2-4 types with repeats, default or named buffer, optional "
         "yields before and virtual work after the collect_events call, optional fail-once-then-retry after a completed collection) fed "
-        "by producer invocations whose virtual durations fix the arrival order (many equal, so several collecting invocations overlap). "
+        "by producer invocations whose virtual durations fix the arrival order (many equal, so several collecting invocations overlap); in one case of three the collected events of a type are equal-valued (no distinguishing field; the harness tracks object identity). "
         "Mode 'exact': R rounds, round j+1 is emitted only after round j's list was returned, each round is exactly the expected "
         "multiset (no type ever in surplus): every clause incl. completeness (exactly R lists, every arrived event in exactly one). "
         "Mode 'stream': free-running arrivals (several multisets, optionally surplus members): well-formedness, membership and "
@@ -66,6 +66,7 @@ class C09(Prop):
                 "pre_yields": draw(st.sampled_from([0, 0, 0, 1, 2])),
                 "post": draw(st.sampled_from([0, 0, 0, 1, 2])),
                 "fail_once": mode == "exact" and draw(st.integers(0, 4)) == 0,
+                "equal_payloads": draw(st.integers(0, 2)) == 0,
                 "retry_wait": draw(st.sampled_from([0, 0, 1, 2])),
                 "ties": draw(st.lists(st.integers(0, 7), max_size=10)),
             }
@@ -80,6 +81,14 @@ class C09(Prop):
         accepted = tuple(ge.POOL[t] for t in sorted(set(case["expected"])))
         rounds = case["rounds"]
 
+        keep: list = []
+        ident: dict = {}
+        log["ident"] = ident
+
+        def uid_of(e):
+            u = e.get("uid", None)
+            return u if u is not None else ident.get(id(e))
+
         def emit_round(ctx, j):
             for idx, (t, d) in enumerate(rounds[j]):
                 ctx.send_event(rec.mk("E0", "send", kind=t, delay=d, round=j, idx=idx))
@@ -91,13 +100,19 @@ class C09(Prop):
         async def prod(self, ctx, ev):
             if ev.get("delay"):
                 await asyncio.sleep(ev.get("delay"))
-            e = rec.mk(ev.get("kind"), "ret", round=ev.get("round"))
-            log["arrivals"].append({"uid": e.get("uid"), "type": ev.get("kind"), "round": ev.get("round"), "t": VClock.t})
+            if case.get("equal_payloads"):
+                # equal-valued events: no distinguishing field at all; identity is tracked out of band by the harness
+                e = ge.POOL[ev.get("kind")](round=ev.get("round") if case["mode"] == "exact" else 0)
+                keep.append(e)
+                ident[id(e)] = -len(keep)
+            else:
+                e = rec.mk(ev.get("kind"), "ret", round=ev.get("round"))
+            log["arrivals"].append({"uid": uid_of(e), "type": ev.get("kind"), "round": ev.get("round"), "t": VClock.t})
             return e
 
         async def col(self, ctx, ev):
             ri = ctx.retry_info()
-            inv = {"uid": ev.get("uid"), "type": type(ev).__name__, "attempt": ri.retry_number, "t_in": VClock.t, "s_in": rec.nseq(), "t_out": None, "got": "unset"}
+            inv = {"uid": uid_of(ev), "type": type(ev).__name__, "attempt": ri.retry_number, "t_in": VClock.t, "s_in": rec.nseq(), "t_out": None, "got": "unset"}
             log["col"].append(inv)
             try:
                 for _ in range(case["pre_yields"]):
@@ -106,7 +121,7 @@ class C09(Prop):
                 if got is None:
                     inv["got"] = None
                     return None
-                inv["got"] = [(type(e).__name__, e.get("uid")) for e in got]
+                inv["got"] = [(type(e).__name__, uid_of(e)) for e in got]
                 if case["post"]:
                     await asyncio.sleep(case["post"])
                 if case["fail_once"] and ri.retry_number == 0:
@@ -239,6 +254,8 @@ class C09(Prop):
         r.classes.append("mode_" + case["mode"])
         if case["fail_once"]:
             r.classes.append("fail_once")
+        if case.get("equal_payloads"):
+            r.classes.append("equal_payloads")
         if len(completions) >= 2:
             r.classes.append("lists_ge_2")
         r.nontrivial = rerun or overlap
